@@ -318,6 +318,10 @@ def _deep(col):
                 except RecursionError:
                     col.count("deep_unparsable")
                     continue
+                import sys
+
+                old = sys.getrecursionlimit()
+                sys.setrecursionlimit(1000)  # the interpreter's default (the harness itself runs with a larger one)
                 try:
                     AST2SCFG(arg)
                     res = ("accepted (a graph was built)", "accepted")
@@ -325,6 +329,8 @@ def _deep(col):
                     res = None
                 except Exception as e:
                     res = (f"raised {type(e).__name__} instead of NotImplementedError", f"{type(e).__name__}@{lib_frame(e)}")
+                finally:
+                    sys.setrecursionlimit(old)
                 if res:
                     col.fail(f"C11:{tname}:deep:{res[1]}", f"{tname} with a {DEEP}-term expression at {sk} ({form}): {res[0]}", dict(deep=tname, skeleton=sk, form=form), 10)
                 col.case(("deep", tname, sk, form), DEEP, sk != "top", sample=dict(node=tname, skeleton=sk, form=form, expression_terms=DEEP), classes=[tname, "deep_expression"])
